@@ -41,6 +41,9 @@ CHECKS = {
     "C06": ("table agreement with the shipped data files + decision-table extraction by abstract interpretation + scale-domain (E5) and float-exactness (E6) rules",
             "Built-in table equals leap-seconds.list and naif0012 row for row; look-up returns the last eligible row at or before the count (all 43 intervals, both flag values); conversions pass iers_only = true; UTC->TAI adds / TAI->UTC subtracts; look-up key domain; exact threshold comparison; file provider shape.",
             "3.C06"),
+    "C08": ("region-containment proof per path partition (abstract interpretation + Fourier-Motzkin), table agreement, base-case/inductive-step analysis of the year loop",
+            "is_gregorian_valid accepts only inside / rejects only outside the statement's region (month lengths, 4/100/400 rule, leap-second instants from the IERS rows); tables; maybe_from_gregorian = 365(y-1900) d +/- one day per leap loop-year + cumulative days + time of day - scale offset, Err on invalid input, no panic.",
+            "3.C08"),
 }
 
 NOT_YET = {}
